@@ -323,8 +323,66 @@ pub fn checks_for(pid: &str) -> Checks {
     }
 }
 
+/// Sanity of the reference model itself against literals from RFC 8152 appendix C (typed in from
+/// the RFC text, independent of coset's test vectors).
 pub fn selftest() -> Result<usize, String> {
-    Ok(0)
+    use crate::refcose::*;
+    let mut n = 0;
+    let h = |s: &str| unhex(s).unwrap();
+    // C.2.1 single-signer COSE_Sign1: protected {1: -7}, unprotected {4: '11'}
+    let sign1 = h("d28443a10126a10442313154546869732069732074686520636f6e74656e742e58408eb33e4ca31d1c465ab05aac34cc6b23d58fef5c083106c4d25a91aef0b0117e2af9a291aa32e14ab834dc56ed2a223444547e01f11d3b0916e5a4c345cacb36");
+    let it = match crate::refcbor::read_all(&sign1) {
+        crate::refcbor::ReadAll::One(e) => e.item(),
+        x => return Err(format!("RFC vector does not parse: {:?}", x)),
+    };
+    match decode_tagged(Ty::Sign1, &it) {
+        Verdict::Accept(RVal::Sign1(s)) => {
+            if s.protected.original != Some(h("a10126")) || s.protected.header.alg != Some(RLabel::Int(-7)) || s.unprotected.key_id != b"11".to_vec() || s.payload != Some(b"This is the content.".to_vec()) || s.signature.len() != 64 {
+                return Err(format!("RFC 8152 C.2.1 decoded wrongly by the reference: {:?}", s));
+            }
+            // Sig_structure of C.2.1 (external_aad empty)
+            let want = h("846a5369676e61747572653143a101264054546869732069732074686520636f6e74656e742e");
+            let got = sig_structure("Signature1", &h("a10126"), None, b"", b"This is the content.");
+            if got != want {
+                return Err(format!("reference Sig_structure differs from RFC 8152 C.2.1: {}", hex(&got)));
+            }
+            n += 2;
+        }
+        v => return Err(format!("reference rejects RFC 8152 C.2.1: {:?}", v)),
+    }
+    // must not be accepted as the shape-sharing types under its own tag
+    for other in [Ty::Mac0, Ty::Encrypt, Ty::Sign] {
+        if let Verdict::Accept(_) = decode_tagged(other, &it) {
+            return Err(format!("reference accepts a tag-18 item as {:?}", other));
+        }
+        n += 1;
+    }
+    // MAC_structure / Enc_structure shapes (RFC 8152 sections 6.3, 5.3)
+    if mac_structure("MAC0", &h("a10105"), b"", b"This is the content.") != h("84644d41433043a101054054546869732069732074686520636f6e74656e742e") {
+        return Err("reference MAC_structure literal mismatch".into());
+    }
+    if enc_structure("Encrypt0", &h("a1010a"), b"") != h("8368456e63727970743043a1010a40") {
+        return Err("reference Enc_structure literal mismatch".into());
+    }
+    n += 2;
+    // a key from RFC 8152 C.7.1 (first key, trimmed): kty EC2, kid, crv, x, y
+    let key = h("a5010220012158206 5eda5a12577c2bae829437fe338701a10aaa375e1bb5b5de108de439c08551d2258201e52ed75701163f7f9e40ddf9f341b3dc9ba860af7e0ca7ca7e9eecd0084d19c0258246d65726961646f632e6272616e64796275636b406275636b6c616e642e6578616d706c65");
+    let it = match crate::refcbor::read_all(&key) {
+        crate::refcbor::ReadAll::One(e) => e.item(),
+        x => return Err(format!("RFC key vector does not parse: {:?}", x)),
+    };
+    match decode(Ty::Key, &it) {
+        Verdict::Accept(RVal::Key(k)) if k.kty == RLabel::Int(2) && k.params.len() == 3 && k.key_id.len() == 36 => n += 1,
+        v => return Err(format!("reference mis-decodes RFC 8152 C.7.1 key: {:?}", v)),
+    }
+    // encode(decode(x)) is the identity on the data model for a deterministic input
+    if let Verdict::Accept(v) = decode(Ty::Key, &it) {
+        if !crate::refcose::eq_mod_map_order(&encode(&v), &it) {
+            return Err("reference encode/decode not inverse on RFC key".into());
+        }
+        n += 1;
+    }
+    Ok(n)
 }
 
 pub fn child(args: &[String]) -> i32 {
